@@ -342,7 +342,12 @@ public:
     auto next = info.cur->next.load(std::memory_order_relaxed);
     guard_ptr tmp_guard;
     // (1) - this acquire-load synchronizes-with the release-CAS (8, 9, 10, 12, 15)
-    if (next.mark() == 0 && tmp_guard.acquire_if_equal(info.cur->next, next, std::memory_order_acquire)) {
+    while (next.mark() == 0 && !tmp_guard.acquire_if_equal(info.cur->next, next, std::memory_order_acquire)) {
+      // cur is not marked, but cur->next has changed (e.g., a new node has been inserted right after cur)
+      // -> simply try again with the new value. (Falling through to find() would yield cur a second time.)
+      next = info.cur->next.load(std::memory_order_relaxed);
+    }
+    if (next.mark() == 0) {
       info.prev = &info.cur->next;
       info.save = std::move(info.cur);
       info.cur = std::move(tmp_guard);
